@@ -55,7 +55,7 @@ class Current(pd.Series):
         if isinstance(other, Current):
             return Current(self.add(other, fill_value=0))
         else:
-            TypeError("Must be of type Current.")
+            raise TypeError("Must be of type Current.")
 
     # Allow for right addition as well.
     __radd__ = __add__
@@ -67,5 +67,22 @@ class Current(pd.Series):
             other (Current): Current to be subtracted from self.
         Returns:
             Current: self - other
+        Raises:
+            TypeError: Raised if other is not of type Current.
         """
+        if not isinstance(other, Current):
+            raise TypeError("Must be of type Current.")
         return Current(self.add(-1 * other, fill_value=0))
+
+    def __mul__(self, other):
+        """ Return Current which is self scaled by the number other.
+
+        Args:
+            other (number): Scalar to multiply each coefficient by.
+        Returns:
+            Current: self * other
+        """
+        return Current(super().__mul__(other))
+
+    # Allow for left multiplication by a scalar as well.
+    __rmul__ = __mul__
